@@ -115,6 +115,67 @@ def enc(case, obs):
     return i, "(%s, true, %s)" % (d, clist([cbool(b) for b in obs["truth"]], "bool"))
 
 
+# ------------------------------------------------------------------ several configurations built one after another
+def impl_sequence(case):
+    import contextlib, io
+    from behave.configuration import Configuration
+    outs = []
+    for proto, args, _kind, _sem in case["steps"]:
+        kw = {} if proto is None else {"tag_expression_protocol": proto}
+        try:
+            with contextlib.redirect_stdout(io.StringIO()), contextlib.redirect_stderr(io.StringIO()):
+                cfg = Configuration(["--tags=" + a for a in args], load_config=False, **kw)
+            outs.append({"ok": True, "truth": [bool(cfg.tag_expression.check(list(su))) for su in SUBSETS]})
+        except BaseException as e:      # noqa
+            outs.append({"ok": False, "err": type(e).__name__})
+    return {"outs": outs}
+
+
+def oracle_sequence(case, obs):
+    out = []
+    for i, ((proto, args, kind, sem), o) in enumerate(zip(case["steps"], obs["outs"])):
+        hist = [(p or "default", a) for p, a, _k, _s in case["steps"][:i]]
+        if kind == "mixed":
+            if o["ok"] or o.get("err") != "TagExpressionError":
+                out.append(("configuration #%d (protocol %s, --tags %r, after %r): mixed text accepted or wrong error (%s)" % (
+                    i, proto or "default", args, hist, o.get("err")), "sequence-mixed-not-rejected"))
+            continue
+        want = cnf_truth(sem) if kind == "cnf" else truth(sem)
+        if not o["ok"]:
+            out.append(("configuration #%d (protocol %s, --tags %r, after %r) was rejected: %s" % (i, proto or "default", args, hist, o.get("err")),
+                        "sequence-rejected"))
+        elif o["truth"] != want:
+            k = [j for j, (a, b) in enumerate(zip(o["truth"], want)) if a != b][0]
+            out.append(("configuration #%d (protocol %s, --tags %r) built after %r selects %s: %s, its own meaning says %s" % (
+                i, proto or "default", args, hist, SUBSETS[k], o["truth"][k], want[k]), "sequence-depends-on-history"))
+    return out
+
+
+def gen_sequences(rnd, n):
+    decos = [("-", False), ("-", True), ("~", False), ("~", True)]
+    cases = []
+    for _ in range(n):
+        steps = []
+        for _k in range(rnd.randint(2, 4)):
+            r = rnd.random()
+            if r < 0.4:
+                cnf = [[(rnd.random() < 0.4, rnd.choice(TAGS[:3]), rnd.choice(decos), None) for _a in range(rnd.randint(1, 2))]
+                       for _g in range(rnd.randint(1, 2))]
+                cnf = [[(neg, t, d if neg else ("", rnd.random() < 0.5), l) for neg, t, d, l in g] for g in cnf]
+                if len(cnf) == 1 and len(cnf[0]) == 1 and not cnf[0][0][0]:
+                    cnf[0].append((True, "foo", ("-", True), None))          # one positive word alone is not recognisably old-style
+                steps.append([rnd.choice([None, "v1", "auto_detect"]), render_cnf(cnf), "cnf", cnf])
+            elif r < 0.85:
+                t = rnd_tree(rnd, rnd.randint(1, 2))
+                if t[0] in ("lit", "mat"):
+                    t = ("not", t)
+                steps.append([rnd.choice([None, "v2", "auto_detect"]), [render_min(t, None, rnd.random() < 0.5)], "v2", t])
+            else:
+                steps.append([rnd.choice([None, "auto_detect"]), ["-a and foo"], "mixed", None])
+        cases.append({"steps": steps})
+    return cases
+
+
 def suites(tier, seed):
     rnd = random.Random(seed * 524287 + 8)
     thorough = tier == "thorough"
@@ -172,7 +233,11 @@ def suites(tier, seed):
         k = len(w) - len(w.lstrip("("))
         words[i] = w[:k] + rnd.choice("-~") + w[k:]
         cases.append({"kind": "mixed", "text": " ".join(words), "protocol": "auto"})
-    return [{"name": "dialects", "cases": cases, "impl": tagx.impl_expr, "oracle": oracle, "exhaustive": True,
+    seqs = gen_sequences(random.Random(seed * 131 + 88), 600 if thorough else 150)
+    seq_suite = {"name": "configuration_sequences", "cases": seqs, "impl": impl_sequence, "oracle": oracle_sequence,
+                 "nontrivial": lambda c, o: len(set(p for p, _a, _k, _s in c["steps"])) > 1,
+                 "bound": "%d sequences of 2-4 configurations (protocol default / v1 / v2 / auto_detect x --tags in either dialect) built in one process" % len(seqs)}
+    return [seq_suite, {"name": "dialects", "cases": cases, "impl": tagx.impl_expr, "oracle": oracle, "exhaustive": True,
              "nontrivial": lambda c, o: bool(o.get("ok")) and 0 < sum(o["truth"]) < len(o["truth"]),
              "bound": "%d cases (exhaustive small CNFs x 4 spellings, random CNFs, v2 and mixed texts under auto_detect)" % len(cases),
              "coq": {"header": HEADER, "in_ty": "bool * bool * list ustr", "out_ty": "v1obs", "fn": "run_any",
